@@ -506,6 +506,124 @@ theorem model_holds_removeEmpty [Zero α] [DecidableEq α] (t : Table α) (hwf :
     simp only [REAxis.touches, if_true, Bool.false_eq_true, if_false, nonEmptyIds_eq t hwf .samp hn _ hl]
     exact blockVerdict_none t _ _ _ hb _ _ _ _ _ _ _ _ (eqb_self _)
 
+/-! ### `remove_empty(axis='whole')`: samples first, then observations of the intermediate table -/
+
+theorem blockSpec_trans' (t t1 r : Table α) (eo es eo' es' : List Id) (h1 : BlockSpec t t1 eo es)
+    (h2 : BlockSpec t1 r eo' es') (hso : ∀ o ∈ eo', o ∈ eo) (hss : ∀ s ∈ es', s ∈ es) : BlockSpec t r eo' es' where
+  wf := h2.wf
+  obs := h2.obs
+  samp := h2.samp
+  cells := fun o ho s hs => (h2.cells o ho s hs).trans (h1.cells o (hso o ho) s (hss s hs))
+  omd := fun o ho => (h2.omd o ho).trans (h1.omd o (hso o ho))
+  smd := fun s hs => (h2.smd s hs).trans (h1.smd s (hss s hs))
+  ttype := h2.ttype.trans h1.ttype
+
+/-- removing positions whose mask bit is clear does not change `any p` when every element that
+satisfies `p` stands at a kept position -/
+theorem any_filterMask {β : Type} (p : β → Bool) (xs : List β) (mask : List Bool)
+    (h : ∀ j (hj : j < xs.length), p xs[j] = true → mask[j]? = some true) :
+    (filterMask xs mask).any p = xs.any p := by
+  induction xs generalizing mask with
+  | nil => cases mask <;> rfl
+  | cons x xs ih =>
+    cases mask with
+    | nil =>
+      have hx : p x = false := by
+        cases hp : p x with
+        | false => rfl
+        | true => have := h 0 (by simp) hp; simp at this
+      have hxs : xs.any p = false := by
+        rw [List.any_eq_false]
+        intro y hy
+        obtain ⟨i, hi, rfl⟩ := List.getElem_of_mem hy
+        intro hp
+        have := h (i + 1) (by simpa using hi) (by simpa using hp)
+        simp at this
+      simp [filterMask, hx, hxs]
+    | cons b bs =>
+      have ih' := ih bs (fun j hj hp => by
+        have := h (j + 1) (by simpa using hj) (by simpa using hp)
+        simpa using this)
+      cases b
+      · have hx : p x = false := by
+          cases hp : p x with
+          | false => rfl
+          | true => have := h 0 (by simp) hp; simp at this
+        simp [filterMask, ih', hx]
+      · simp [filterMask, ih']
+
+/-- a row keeps its "holds a non-zero value" verdict when the all-zero columns are removed -/
+theorem nonEmptyVec_filter_cols [Zero α] [DecidableEq α] (rows : List (List α)) (m : Nat)
+    (hrect : ∀ r ∈ rows, r.length = m) (row : List α) (hrow : row ∈ rows) :
+    nonEmptyVec (filterMask row ((transposeGrid m rows).map nonEmptyVec)) = nonEmptyVec row := by
+  unfold nonEmptyVec
+  apply any_filterMask
+  intro j hj hp
+  have hjm : j < m := by rw [← hrect row hrow]; exact hj
+  simp only [transposeGrid, List.map_map, List.getElem?_map, List.getElem?_range hjm, Option.map_some,
+    Function.comp, Option.some.injEq]
+  rw [colAt_eq_map rows j (fun r hr => by rw [hrect r hr]; exact hjm)]
+  simp only [List.any_map, List.any_eq_true]
+  refine ⟨row, hrow, ?_⟩
+  simpa [List.getD, List.getElem?_eq_getElem hj] using hp
+
+/-- **removeEmpty_whole**: `remove_empty()` on both axes leaves exactly the observations and the samples
+that hold a non-zero value in the ORIGINAL table, cells and metadata by ID unchanged -/
+theorem removeEmpty_whole [Zero α] [DecidableEq α] (t : Table α) (hwf : t.WF) (hno : t.obs.Nodup)
+    (hns : t.samp.Nodup) (layoutOf : Table α → Axis → CS α)
+    (hls : LayoutOf t .samp (layoutOf t .samp))
+    (hlo : ∀ t1 : Table α, t1 = filterAxis t (t.samp.map (nonEmptyId t .samp)) .samp →
+      LayoutOf t1 .obs (layoutOf t1 .obs)) :
+    ∃ r, removeEmpty t layoutOf .whole = .ok r ∧
+      BlockSpec t r (t.obs.filter (nonEmptyId t .obs)) (t.samp.filter (nonEmptyId t .samp)) := by
+  have hmaskS : (vecs t .samp).map nonEmptyVec = t.samp.map (nonEmptyId t .samp) :=
+    vecs_map_byId t hwf .samp hns _ hls nonEmptyVec
+  let t1 := filterAxis t (t.samp.map (nonEmptyId t .samp)) .samp
+  have hwf1 : t1.WF := filterAxis_wf t hwf _ .samp (by simp [Table.ids])
+  have hl1 := hlo t1 rfl
+  have b1 := blockSpec_filterAxis t hwf .samp hns (nonEmptyId t .samp)
+  have b2 := blockSpec_filterAxis t1 hwf1 .obs hno (nonEmptyId t1 .obs)
+  -- emptiness of an observation is the same in the intermediate table
+  have hsame : ∀ o ∈ t.obs, nonEmptyId t1 .obs o = nonEmptyId t .obs o := by
+    intro o _
+    simp only [nonEmptyId, Table.vec?, Table.row?]
+    show nonEmptyVec ((lookupBy t.obs (t.rows.map (filterMask · (t.samp.map (nonEmptyId t .samp)))) o).getD []) = _
+    rw [lookupBy_map]
+    cases hlk : lookupBy t.obs t.rows o with
+    | none => rfl
+    | some row =>
+      simp only [Option.map_some, Option.getD_some]
+      rw [← hmaskS]
+      exact nonEmptyVec_filter_cols t.rows t.samp.length hwf.2.1 row (lookupBy_mem _ _ _ _ hlk)
+  have hfilter : t.obs.filter (nonEmptyId t1 .obs) = t.obs.filter (nonEmptyId t .obs) :=
+    List.filter_congr (fun o ho => hsame o ho)
+  refine ⟨filterAxis t1 (t1.obs.map (nonEmptyId t1 .obs)) .obs, ?_, ?_⟩
+  · simp only [removeEmpty, removeEmpty_exact t hwf .samp hns _ hls]
+    exact removeEmpty_exact t1 hwf1 .obs hno _ hl1
+  · have b2' : BlockSpec t1 (filterAxis t1 (t1.obs.map (nonEmptyId t1 .obs)) .obs)
+        (t.obs.filter (nonEmptyId t .obs)) (t.samp.filter (nonEmptyId t .samp)) := by
+      have := b2
+      simp only at this
+      rw [show t1.obs = t.obs from rfl, hfilter] at this
+      rw [show t1.samp = t.samp.filter (nonEmptyId t .samp) from b1.samp] at this
+      exact this
+    exact blockSpec_trans' t t1 _ _ _ _ _ b1 b2' (fun o ho => (List.mem_filter.mp ho).1) (fun s hs => hs)
+
+/-- **model_holds** (`remove_empty(axis='whole')`) -/
+theorem model_holds_removeEmpty_whole [Zero α] [DecidableEq α] (t : Table α) (hwf : t.WF) (hno : t.obs.Nodup)
+    (hns : t.samp.Nodup) (layoutOf : Table α → Axis → CS α)
+    (hls : LayoutOf t .samp (layoutOf t .samp))
+    (hlo : ∀ t1 : Table α, t1 = filterAxis t (t.samp.map (nonEmptyId t .samp)) .samp →
+      LayoutOf t1 .obs (layoutOf t1 .obs))
+    (hlo0 : LayoutOf t .obs (layoutOf t .obs)) (inplace : Bool) :
+    holdsRemoveEmpty t .whole inplace (modelCallObs t (removeEmpty t layoutOf .whole) inplace) = true := by
+  obtain ⟨r, hr, hb⟩ := removeEmpty_whole t hwf hno hns layoutOf hls hlo
+  unfold holdsRemoveEmpty
+  rw [Option.isNone_iff_eq_none]
+  simp only [hr, modelCallObs, verdictRemoveEmpty, REAxis.touches, if_true,
+    nonEmptyIds_eq t hwf .obs hno _ hlo0, nonEmptyIds_eq t hwf .samp hns _ hls]
+  exact blockVerdict_none t _ _ _ hb _ _ _ _ _ _ _ _ (eqb_self _)
+
 /-- `t` restricted to its leading `k` observations -/
 def obsBlock (t : Table α) (k : Nat) : Table α :=
   { t with obs := t.obs.take k, rows := t.rows.take k, omd := normMd (t.omd.map (·.take k)) }
@@ -687,6 +805,24 @@ theorem t1_wf : t1.WF := by
 example : removeEmptyAxis t1 t1Layout .obs = .ok { t1 with obs := ["a", "c"], rows := [[-1, 0, 1], [-3, 0, 0]] } := by
   rw [removeEmpty_exact t1 t1_wf .obs (by decide) t1Layout t1_layout_of]
   rfl
+
+/-- `axis='whole'`: column `y` and row `b` go, the zero-sum row `a` and the negative row `c` stay -/
+def t1ColLayout : CS Int := ofSlices 3 [[(2, -3), (0, -1)], [], [(0, 1)]]
+def t1MidLayout : CS Int := ofSlices 2 [[(1, 1), (0, -1)], [], [(0, -3)]]
+
+example : ∃ r, removeEmpty t1 (fun _ ax => match ax with | .samp => t1ColLayout | .obs => t1MidLayout) .whole = .ok r ∧
+    BlockSpec t1 r ["a", "c"] ["x", "z"] := by
+  have h := removeEmpty_whole t1 t1_wf (by decide) (by decide)
+    (fun _ ax => match ax with | .samp => t1ColLayout | .obs => t1MidLayout)
+    { wf := wf_ofSlices _ _ (by decide) (by decide), nMajor := rfl, nMinor := rfl, dense := by decide }
+    (fun t1' ht => by
+      subst ht
+      exact { wf := wf_ofSlices _ _ (by decide) (by decide), nMajor := by decide, nMinor := by decide,
+              dense := by decide })
+  have e1 : t1.obs.filter (nonEmptyId t1 .obs) = ["a", "c"] := by decide
+  have e2 : t1.samp.filter (nonEmptyId t1 .samp) = ["x", "z"] := by decide
+  rw [e1, e2] at h
+  exact h
 
 example : removeRows rowLayout [true, false, true] =
     .ok { nMajor := 2, nMinor := 3, indptr := [0, 3, 5], indices := [2, 0, 1, 2, 0], data := [3, 1, 2, 5, 4] } := by
